@@ -6,9 +6,12 @@ import os, re
 
 PARTS = {1: ['array', 'array_ic4', 'segarray'],
          2: ['hset_limp4', 'hset_open8', 'hset_limp'],
-         3: ['hmap_limp4', 'hmap_open8', 'hmmap', 'hmap_limp4_xc'],
+         3: ['hmap_limp4', 'hmap_limp4_xc'],
+         6: ['hmap_open8'],
+         8: ['hmmap'],
          4: ['tset_n4', 'tset_n4i', 'tset_n32'],
-         5: ['tmap_n4', 'tmap_n32', 'tmap_n4_xc']}
+         5: ['tmap_n4', 'tmap_n4_xc'],
+         7: ['tmap_n32']}
 NOPS = {'hmap_limp4_xc': 30, 'tmap_n4_xc': 36, 'array': 28, 'array_ic4': 28, 'segarray': 40, 'hset_limp4': 34, 'hset_open8': 34, 'hset_limp': 34, 'hmap_limp4': 30,
         'hmap_open8': 30, 'hmmap': 30, 'tset_n4': 40, 'tset_n4i': 40, 'tset_n32': 70, 'tmap_n4': 36, 'tmap_n32': 70}
 # no known findings on the current tree.  (Until b307610 the *_xc configurations - momo's DEFAULT extraCheckMode = assertion - aborted
@@ -147,7 +150,8 @@ def _stamp(ctx, src, flags):
 
 def build(ctx):
     """build micro + the five oracle parts in parallel; an executable is reused only if the hash of ALL its inputs is unchanged"""
-    jobs = [('micro.cpp', 'micro', [])] + [('harness.cpp', 'h%d' % p, ['-DPART=%d' % p]) for p in PARTS]
+    dbg = ['-g0'] if ctx.quick() else []
+    jobs = [('micro.cpp', 'micro', dbg)] + [('harness.cpp', 'h%d' % p, ['-DPART=%d' % p] + dbg) for p in PARTS]
     exes = {}; todo = []
     for (src, exe, flags) in jobs:
         out = os.path.join(ctx.build, exe + ('' if ctx.quick() else '.san'))
@@ -208,8 +212,14 @@ def run(ctx):
                         '(momo on GCC/Clang treats every type declaring a move constructor as nothrow relocatable; a throwing move inside such a relocation is std::terminate, outside the property)',
                         'maps are exercised with extraCheckMode = nothing (with the default assertion mode pvExtraCheck swallows a functor exception and asserts; reported)',
                         'documented exceptions honoured: Array/SegmentedArray Insert/Remove, multi-item Insert, predicate Remove, Merge*, Key&& argument, map Remove value (items 4/5)']
+    # the C++ builds (9 translation units, in parallel) run concurrently with the Coq build
+    import threading
+    box = {}
+    th = threading.Thread(target=lambda: box.update(r=build(ctx)))
+    th.start()
     ctx.prove()
-    micro, exes = build(ctx)
+    th.join()
+    micro, exes = box.get('r', (None, {}))
     have_model = ctx.stages.get('prove', {}).get('ok') and ctx.extract()
     if have_model and micro:
         cases = micro_cases(ctx)
